@@ -269,10 +269,10 @@ def shift_semantics(ctx):
     f = prog.own_method("SamplingMethod", "eval_at_control")
     sc = ctx.scope(f)
     k = f.params[3]
-    loops = [l for l in walk_no_nested(f.node) if isinstance(l, ast.For) and "offsets" in ast.unparse(l.iter)]
+    loops = [l for l in walk_no_nested(f.node) if isinstance(l, ast.For)]
     loop = None
     for l in loops:
-        if any(is_call_to(c, "_eval_at_control", "self") for c in ast.walk(l)):
+        if any(is_call_to(c, "_eval_at_control", "self") for c in ast.walk(l)) and loop is None:
             loop = l
     if loop is None:
         raise AnalysisError("eval_at_control: loop over offsets with a call to self._eval_at_control not found")
@@ -521,7 +521,15 @@ def check_branch_slot(ctx, f, call, slot, table, label):
     if not isinstance(v, ast.Name):
         ctx.fail("%s slot %s" % (label, slot), detail="unrecognised shape", expected="a local defined per branch", found=ast.unparse(v), fi=f, node=call)
         return
-    defs = S.branch_defs(sc, v.id, lambda: Norm(sc, expand=False))
+    # follow plain aliases (x = y) down to the name that is defined per branch
+    name = v.id
+    for _ in range(4):
+        ds = [d for d in sc.defs.get(name, []) if d.kind == "assign"]
+        if len(ds) == 1 and isinstance(ds[0].value, ast.Name) and ds[0].value.id in sc.defs:
+            name = ds[0].value.id
+        else:
+            break
+    defs = S.branch_defs(sc, name, lambda: Norm(sc, expand=False))
     got = {}
     for gs, p in defs or []:
         got[tuple(gs)] = str(p)
